@@ -34,6 +34,10 @@ class Cut(BaseException):
         self.what = what
 
 
+class PathTimeout(BaseException):
+    """One path of the code under test ran longer than the per-path limit (a loop that never ends on these inputs)."""
+
+
 class Inconclusive(BaseException):
     """Solver answered unknown / engine cannot model an operation."""
 
@@ -209,9 +213,13 @@ class SymNum:
         return self._rb(o, lambda a, b: a * b)
 
     def __truediv__(self, o):
+        if DIV_CHECK[0]:
+            _div_guard(o)
         return self._b(o, lambda a, b: a / b)
 
     def __rtruediv__(self, o):
+        if DIV_CHECK[0]:
+            _div_guard(self)
         return self._rb(o, lambda a, b: a / b)
 
     def __neg__(self):
@@ -301,6 +309,16 @@ class NPFloat32(SymNum):
 
 
 ABS_FORKS = [False]
+DIV_CHECK = [False]     # harness switch: a division whose divisor can be 0 forks, and raises ZeroDivisionError on that side (Python / numba semantics)
+
+
+def _div_guard(d):
+    try:
+        e = lift(d)
+    except TypeError:
+        return
+    if Ctx.cur is not None and Ctx.cur.decide(e == 0):
+        raise ZeroDivisionError("division by zero")
 
 
 def concretize(x, what="index"):
@@ -768,7 +786,7 @@ class Result:
 
 
 def explore(harness, *, max_paths=200000, timeout_ms=15000, seed=0, max_violations=12,
-            deadline=None, on_violation=None, prefixes=None, stop_when_pending=None):
+            deadline=None, on_violation=None, prefixes=None, stop_when_pending=None, path_alarm_s=None):
     """Depth-first exploration of `harness(ctx) -> list[Obl]`.
 
     Each returned obligation is checked against the final path condition.  Returns a Result.
@@ -789,8 +807,25 @@ def explore(harness, *, max_paths=200000, timeout_ms=15000, seed=0, max_violatio
         Ctx.cur = ctx
         obls = None
         _pyrandom.seed(20260927)      # the stdlib generator (used by the library's construction-time self-check) is replayed identically on every path
+        _old_handler = None
+        if path_alarm_s:
+            import signal as _signal
+
+            def _on_alarm(signum, frame):
+                raise PathTimeout()
+            try:
+                _old_handler = _signal.signal(_signal.SIGALRM, _on_alarm)
+                _signal.setitimer(_signal.ITIMER_REAL, float(path_alarm_s))
+            except ValueError:          # not in the main thread: no watchdog
+                _old_handler = None
         try:
             obls = harness(ctx)
+        except PathTimeout:
+            # the code under test did not come back on inputs that satisfy every assumption made so far: a candidate violation of
+            # "terminates", confirmed (or not) by the replay on the real build under an alarm
+            name = "terminates(within the per-path limit)"
+            res.exceptions[name] = res.exceptions.get(name, 0) + 1
+            obls = [Obl(name, False, realize=ctx.notes.get("realize"))]
         except PathAbort:
             res.aborted += 1
         except Cut as c:
@@ -808,6 +843,10 @@ def explore(harness, *, max_paths=200000, timeout_ms=15000, seed=0, max_violatio
                 res.exc_samples.append("".join(_tb.format_exception(type(ex), ex, ex.__traceback__))[-1500:])
             obls = [Obl(name, False, realize=ctx.notes.get("realize"), known=ctx.notes.get("known_exc"))]
         finally:
+            if path_alarm_s and _old_handler is not None:
+                import signal as _signal
+                _signal.setitimer(_signal.ITIMER_REAL, 0)
+                _signal.signal(_signal.SIGALRM, _old_handler)
             Ctx.cur = None
         work.extend(ctx.work)
         res.paths += 1
